@@ -89,6 +89,10 @@ bool Instance::parse_input_transaction(const char* txdata, int select_index) {
                 return false;
             }
         }
+        if (txin_vout_index < 0 || (size_t)txin_vout_index >= txin->vout.size()) {
+            fprintf(stderr, "error: input %" PRId64 " spends output %" PRId64 " of the input transaction, which only has %zu outputs\n", txin_index, txin_vout_index, txin->vout.size());
+            return false;
+        }
     }
     return true;
 }
